@@ -1,12 +1,12 @@
 package main
 
 import (
-	"os"
 	"fmt"
 	"go/ast"
 	"go/constant"
 	"go/token"
 	"go/types"
+	"os"
 	"regexp"
 	"strings"
 )
